@@ -1344,7 +1344,7 @@ func ruleOneNameSpace(c *core.Ctx, rule string) {
 // rendered token by token, raw fragments given to jen.Id are parsed as Go.
 func ruleForwardLoop(c *core.Ctx, rule string) {
 	n := 0
-	allowed := map[string]bool{"!ok": true, "err != nil": true, "err!=nil": true}
+	allowed := map[string]bool{"!ok": true, "err != nil": true, "err!=nil": true, "nil!=err": true, "ok==false": true}
 	for _, rel := range []string{"meta/idl", "meta/stub"} {
 		p := c.Pkg(rel)
 		if p == nil {
@@ -1466,7 +1466,7 @@ func ruleForwardLoop(c *core.Ctx, rule string) {
 								case *ast.BranchStmt, *ast.ReturnStmt:
 									ok := false
 									for _, cd := range conds {
-										if allowed[cd] {
+										if allowed[cd] || allowed[strings.ReplaceAll(cd, " ", "")] {
 											ok = true
 										}
 									}
@@ -1511,7 +1511,7 @@ func ruleForwardLoop(c *core.Ctx, rule string) {
 							}
 							return true
 						})
-						if !allowed[cond] {
+						if !allowed[strings.ReplaceAll(cond, " ", "")] {
 							bad, badPos = "the emitted loop is left early when "+cond, a.Pos()
 						}
 						continue
